@@ -686,7 +686,8 @@ class LZCompressionVectorizer(BaseEstimator, TransformerMixin):
 
             if self.base_dictionary is not None:
                 for key, val in self.base_dictionary.items():
-                    input_dict[key] = val
+                    hashed_key = self.hash_function_(key)
+                    input_dict[hashed_key] = input_dict.get(hashed_key, 0) + val
 
             encoding_dict = lempel_ziv_based_encode(string, input_dict, self.hash_function_, self.max_dict_size)
 
@@ -765,7 +766,8 @@ class LZCompressionVectorizer(BaseEstimator, TransformerMixin):
 
             if self.base_dictionary is not None:
                 for key, val in self.base_dictionary.items():
-                    input_dict[key] = val
+                    hashed_key = self.hash_function_(key)
+                    input_dict[hashed_key] = input_dict.get(hashed_key, 0) + val
 
             encoding_dict = lempel_ziv_based_encode(string, input_dict, self.hash_function_, self.max_dict_size)
 
